@@ -282,7 +282,7 @@ def _part_c(job):
         sc = r['script']
         sc['observe'] = 'light'
         sc['p_enter'] = 0.3
-        sc['entry'] = rng.choice(['limit', 'ladder', 'market', 'limit'])
+        sc['entry'] = rng.choice(['limit', 'ladder', 'market', 'limit', 'stop', 'mixed'])
         sc['entry_dist'] = rng.choice([0.002, 0.01, 0.03])
         sc['cancel_policy'] = rng.choice(['never', 'rnd'])
         sc['sl'], sc['tp'] = rng.choice([0.02, 0.05]), rng.choice([0.02, 0.05])
@@ -290,7 +290,8 @@ def _part_c(job):
     if job.get('resting_buy_route') is not None and spot and job['nsym'] == 2:
         # one route keeps a far-away resting buy (reserved quote) across midnight
         sc = spec['routes'][job['resting_buy_route']]['script']
-        sc.update(entry='limit', entry_dist=0.2, cancel_policy='never', p_enter=1.0)
+        # (a far-away LIMIT buy below the price or a far-away STOP buy above it: both reserve quote at submission)
+        sc.update(entry=rng.choice(['limit', 'stop']), entry_dist=0.2, cancel_policy='never', p_enter=1.0)
     if job.get('swap') and len(spec['routes']) == 2:
         spec['routes'] = spec['routes'][::-1]
     out = session.run_session(spec, snapshots=False)
